@@ -695,6 +695,14 @@ def gen_calls_case(rng, idx):
     else:
         seq = [one_sided, drv_order, both, special, other]
         rng.shuffle(seq)
+    if case['colsrc'] == 'dynamic' and rng.random() < 0.3:
+        # a caller-supplied coloring_info (copy of the driver's, dynamic, no coloring yet) for caller-supplied lists,
+        # then what every driver does.  Always at the end so that the state it leaves behind touches one call only.
+        own = call(rng.choice(CUSTOM), rng.choice(CUSTOM))
+        own['ci'] = 'own-dynamic'
+        last = call('none', 'none')
+        last['ci'] = None
+        seq = seq + [own, last]
     case['calls'] = seq
     return case
 
@@ -741,9 +749,11 @@ def build_h(case, tot=None, par=None):
     matched = _wrt_matched(case)
     method = case.get('method', 'cs')
     other = case.get('other', 'analytic-sparse')
-    approx_in = set(xs) if other == 'approx' else set(matched or ())
+    approx_in = (set(xs) if other == 'approx' else set()) | set(matched or ())
     if case.get('implicit') and other == 'approx' and case.get('approx_outputs'):
         approx_in |= set(ys)
+    # declare_coloring alone implies approximated partials for the columns it matches
+    implied = set(matched or ()) if case.get('implied') and par is not None else set()
     by_block = bool(case.get('by_block'))
 
     def g(x):
@@ -762,12 +772,16 @@ def build_h(case, tot=None, par=None):
                 self.add_output(yn, np.ones(sl.stop - sl.start))
             if implicit:            # R_y = y - A g(x): dR/dy = I, dR/dx = -A g'(x)
                 for yn, sl in ys.items():
+                    if yn in implied:
+                        continue
                     if yn in approx_in:
                         self.declare_partials(yn, yn, method=method)
                     else:
                         ar = np.arange(sl.stop - sl.start)
                         self.declare_partials(yn, yn, rows=ar, cols=ar, val=1.0)
             for xn, xsl in xs.items():
+                if xn in implied:
+                    continue
                 if xn in approx_in:
                     if by_block:
                         for yn, ysl in ys.items():
@@ -895,7 +909,7 @@ def closed_form_h(case, ds):
     return out
 
 
-def _do_call(p, call):
+def _do_call(p, call, twin=False):
     """One call in the shape the case prescribes; returns {(of name, wrt name): block} or a 2-D array."""
     kw = {}
     if call['of'] is not None:
@@ -913,6 +927,11 @@ def _do_call(p, call):
         return out
     if call.get('ci') is False:
         kw['coloring_info'] = False
+    elif call.get('ci') == 'own-dynamic' and not twin:
+        ci = p.driver._coloring_info.copy()
+        ci.coloring = None
+        ci.dynamic = True
+        kw['coloring_info'] = ci
     J = p.compute_totals(return_format=call['fmt'], driver_scaling=call['ds'], **kw)
     if call['fmt'] == 'array':
         return np.array(J)
@@ -1000,6 +1019,7 @@ def run_calls_case(case, acc):
         bad = False
         used_any = False
         seen_driver_order = False
+        seen_own_ci = False
         for k, call in enumerate(case['calls']):
             blocks = closed_form_h(case, call['ds'])
             tol = 1e-12 * max(max(np.abs(b).max() for b in blocks.values()), 1e-300)
@@ -1014,8 +1034,14 @@ def run_calls_case(case, acc):
             else:
                 kinds = sorted({kk for kk in (call['ofk'], call['wrtk']) if kk not in ('none', 'driver', 'src')})
                 sig = '%s:%s' % (sided, '+'.join(kinds))
+            if call.get('ci') == 'own-dynamic':
+                sig += ':own-coloring_info'
+                acc.count('cell:calls/own-dynamic-coloring_info')
+            if seen_own_ci:
+                sig = 'after-call-with-own-coloring_info:' + sig
+                acc.count('cell:calls/after-call-with-own-coloring_info')
             try:
-                r0 = _do_call(p0, call)
+                r0 = _do_call(p0, call, twin=True)
                 why0 = _compare(case, call, r0, blocks, tol)
             except Exception as e:
                 why0 = 'raises %s: %s' % (type(e).__name__, str(e)[:120])
@@ -1024,6 +1050,8 @@ def run_calls_case(case, acc):
                 acc.count('calls:twin-issue:%s:%s' % (call['api'], why0.split(',')[0][:60]))
                 if _is_driver_order(case, call):
                     seen_driver_order = True
+                if call.get('ci') == 'own-dynamic':
+                    seen_own_ci = True
                 try:                       # keep both problems in the same state
                     _do_call(p, call)
                 except Exception:
@@ -1068,6 +1096,8 @@ def run_calls_case(case, acc):
                 break           # later calls of the sequence run on a problem in an unknown state
             if _is_driver_order(case, call):
                 seen_driver_order = True
+            if call.get('ci') == 'own-dynamic':
+                seen_own_ci = True
         acc.count('cell:calls/%s' % case['colsrc'])
         acc.count('cell:calls/driver-%s' % case['driver'])
         if any(case['didx']) or any(case['cidx']):
@@ -1134,7 +1164,7 @@ def gen_psub_case(rng, idx):
         elif r < 0.7:
             pos, pwrt = 'all-inputs', ['x*']
     case = {'kind': 'partialsub', 'idx': idx, 'isz': isz, 'osz': osz, 'pkind': kind, 'A': A, 'implicit': implicit,
-            'assemble_jac': rng.random() < 0.5, 'approx_outputs': rng.random() < 0.5,
+            'assemble_jac': rng.random() < 0.5, 'approx_outputs': rng.random() < 0.5, 'implied': rng.random() < 0.3,
             'g': rng.choice(['lin', 'sq']), 'x0': [round(rng.uniform(0.5, 1.5), 4) for _ in range(n)],
             'mode': rng.choice(['fwd', 'rev', 'auto']), 'direct': rng.random() < 0.6, 'promote': rng.random() < 0.5,
             'driver': rng.choice(['base', 'scipy']), 'obj': None, 'scaling': None, 'pos': pos, 'pwrt': pwrt,
@@ -1209,6 +1239,8 @@ def run_psub_case(case, acc):
         if case['by_block']:
             acc.count('cell:partialsub/partials-declared-per-nonzero-block')
         acc.count('cell:partialsub/%s' % ('implicit' if case.get('implicit') else 'explicit'))
+        if case.get('implied'):
+            acc.count('cell:partialsub/approximation-implied-by-declare_coloring')
         bad = False
         for stage in ('partials', 'totals-on-top'):
             J = res[stage]
